@@ -538,12 +538,13 @@ func init() {
 				"client, collection, datatype id and key, every option-bit combination 0x01..0x7f, checkpoints zero / ahead / swapped / missing, operation lists with gaps, repeats, reordering, foreign " +
 				"client ids, stale sequence numbers, wrong operation type, garbage body, changed type and era, no pack, two packs of one key (quick: single mutations plus 11 base mutations combined with every other one; thorough: ALL ordered pairs for the counter, base pairs for list and document); oracle: the call returns " +
 				"within 60 virtual seconds, the worker survives (no goroutine of the server stays blocked for ever), a refusal leaves the dump unchanged, the log invariants hold, an SDK client applying the response reports errors through its handler " +
-				"without panicking, and afterwards both correct clients continue and converge; distinct non-trivial = distinct (mutation, outcome class); (caller-gives-up run) schedule search in which a caller cancels its context at any decision point while its call is served: the call ends, nothing stays blocked, the next requests for the key are served and everything converges",
+				"without panicking, and afterwards both correct clients continue and converge; distinct non-trivial = distinct (mutation, outcome class); (client-patch-collection-messages) every mutated ClientMessage / PatchMessage / CollectionMessage of a fixed list (unknown, empty, internal and odd collection names and keys, client ids of every shape, every enum value incl. undefined ones, JSON payloads that are not objects, contain nulls, duplicate keys, escapes, deep nesting, internal field names): answered, refusal changes nothing, an accepted request changes only what its kind may change (frame conditions), the correct clients continue and converge; (caller-gives-up run) schedule search in which a caller cancels its context at any decision point while its call is served: the call ends, nothing stays blocked, the next requests for the key are served and everything converges",
 			Assume: []string{assumeE2, assumeInstr, assumeSched}}
 		if tier == "quick" {
 			p.BudgetS = 480
 			p.Runs = []Run{{Name: "mutation-base-pairs-counter", Check: "C16", Kind: "mutreq", Cases: true, Params: map[string]interface{}{"type": "counter", "pairs": "base"}, Shards: 16},
-				schedRun("caller-gives-up-then-next-requests-b1", 1, giveUpScenario(), 0)}
+				schedRun("caller-gives-up-then-next-requests-b1", 1, giveUpScenario(), 0),
+				{Name: "client-patch-collection-messages", Check: "C16", Kind: "mutadmin", Cases: true, Params: map[string]interface{}{}, Shards: 16}}
 		} else {
 			p.BudgetS = 3300
 			p.Runs = []Run{
@@ -551,6 +552,7 @@ func init() {
 				{Name: "mutation-base-pairs-list", Check: "C16", Kind: "mutreq", Cases: true, Params: map[string]interface{}{"type": "list", "pairs": "base"}, Shards: 16},
 				{Name: "mutation-base-pairs-doc", Check: "C16", Kind: "mutreq", Cases: true, Params: map[string]interface{}{"type": "doc", "pairs": "base"}, Shards: 16},
 				schedRun("caller-gives-up-then-next-requests-b2", 2, giveUpScenario(), 0),
+				{Name: "client-patch-collection-messages", Check: "C16", Kind: "mutadmin", Cases: true, Params: map[string]interface{}{}, Shards: 16},
 			}
 		}
 		return p
